@@ -31,6 +31,16 @@ CLAIMED = {
        '<= 65535, resolver-accepted addresses) and completeness. inet_pton/inet_ntop are oracle parameters (universally quantified). '
        'Tied to the code by corruption/truncation/length/short-read campaigns against the real mix-ins.',
   ref='6/C18', technique='Lean 4 proof (read-loop invariants, well-founded induction) + differential correspondence model vs real proxyproto mix-ins'),
+ 'C20': dict(
+  text='PARTIAL. Lean theorems over Model/Envelope.lean for slimta\'s own logic in Envelope.parse/flatten: for every well-formed header '
+       'block (any number of lines, folded, LF/CRLF/mixed endings), every body byte string: the header/body boundary regex matches exactly '
+       'the first blank line, the body is returned unchanged, the header block comes back with the same lines in the same order and CRLF '
+       'endings, re-parsing the output is a fixed point; encode_7bit without encoder refuses exactly 8-bit bodies. CPython\'s email package '
+       '(field parsing/regeneration, copy, pickle, base64/quoted-printable encoders, behaviour on arbitrary bytes) is modelled only on the '
+       'well-formed domain and exercised, not proved: the campaign compares real Envelope parse/flatten/copy/pickle/re-parse/encode_7bit with the '
+       'model and with the generator\'s own field list.',
+  ref='6/C20', technique='Lean 4 proof (regex-boundary lemma by induction over header lines) + differential correspondence vs real Envelope',
+  note='Partial: the email package is trusted on the well-formed domain (validated by the campaign), not verified.'),
 }
 def main():
     props = [json.loads(l) for l in open(os.path.join(V, 'properties.jsonl'))]
